@@ -193,6 +193,9 @@ def run(rep, tier):
             else:
                 rep.ob(rn, key, d["kind"] in ("xadd", "tail_call") and not problems, "opcode %#04x (%s) has no assembler spelling" % (v, d["kind"]),
                        expected="only atomic add and tail call are inexpressible", found=d["kind"])
+    rp = rep.rule("R16.p", "consecutive rendered instructions parse as separate instructions (operand-less line followed by a mnemonic starting like a register)", floor=1)
+    okp, foundp = asmmodel.register_vs_mnemonic(F, tab)
+    rep.ob(rp, "register-vs-mnemonic", okp, "`exit` followed by `rsh64 ...` in the disassembler's output", expected="the register parser backtracks", found=foundp)
     rg = rep.rule("R16.g", "assembler operand grammar facts used by the tokeniser", floor=1)
     lits = set()
     for p, fn in F.fns.items():
